@@ -48,13 +48,61 @@ class Execution:
         self.extra = {}
 
 
+class _Baton:
+    __slots__ = ("l",)
+
+    def __init__(self):
+        self.l = threading.Lock()
+        self.l.acquire()
+
+    def acquire(self):
+        self.l.acquire()
+
+    def release(self):
+        try:
+            self.l.release()
+        except RuntimeError:
+            pass
+
+
+class _Worker:
+    """Long-lived actor thread (creating a thread costs ~2 ms in this sandbox)."""
+
+    def __init__(self):
+        self.job = None
+        self.go = _Baton()
+        self.idle = threading.Event()
+        self.idle.set()
+        self.t = threading.Thread(target=self._loop, daemon=True)
+        self.t.start()
+
+    def _loop(self):
+        while True:
+            self.go.acquire()
+            fn, arg = self.job
+            try:
+                fn(arg)
+            finally:
+                self.job = None
+                self.idle.set()
+
+    def submit(self, fn, arg):
+        self.idle.clear()
+        self.job = (fn, arg)
+        self.go.release()
+
+    def wait_idle(self, timeout):
+        return self.idle.wait(timeout)
+
+
 class SchedController(fsint.BaseController):
     strict_reads = False
 
     def __init__(self, root, nactors):
         super().__init__(root)
-        self.sems = [threading.Semaphore(0) for _ in range(nactors)]
-        self.main = threading.Semaphore(0)
+        # raw locks used as binary semaphores (threading.Semaphore is ~10x slower)
+        self.sems = [_Baton() for _ in range(nactors)]
+        self.main = _Baton()
         self.pending = [None] * nactors  # (op, path, info) the actor is about to execute
         self.finished = [False] * nactors
         self.aborting = False
@@ -108,12 +156,22 @@ def _copytree(src, dst):
     shutil.copytree(src, dst, symlinks=True)
 
 
+def _conflicts(p, q):
+    """Two file-system calls can only influence each other if they name the same path or one
+    names the directory containing the other (listing / creating / removing entries)."""
+    return p == q or os.path.dirname(p) == q or os.path.dirname(q) == p
+
+
 class Explorer:
-    def __init__(self, scenario: Scenario, bound: int, max_execs=None):
+    def __init__(self, scenario: Scenario, bound: int, max_execs=None, conflict_filter=False, shard=None):
         fsint.install()
         self.sc = scenario
         self.bound = bound
         self.max_execs = max_execs
+        self.conflict_filter = conflict_filter
+        self.shard = shard  # (k, n): explore only first-level alternatives with index % n == k
+        self.footprint = [set() for _ in range(scenario.nactors)]
+        self.skipped_by_filter = 0
         self.execs = 0
         self.per_bound = {}
         self.points_total = 0
@@ -124,6 +182,16 @@ class Explorer:
         self.template = fresh_dir("tmpl")
         self.sc.setup(self.template)
         self.workdir = fresh_dir("exec")
+
+    def reset_stats(self):
+        self.execs = 0
+        self.per_bound = {}
+        self.points_total = 0
+        self.max_points = 0
+        self.outcomes = {}
+        self.violations = []
+        self.capped = False
+        self.skipped_by_filter = 0
 
     def close(self):
         rmtree(self.template)
@@ -170,9 +238,9 @@ class Explorer:
                 fsint.detach()
                 ctl.main.release()
 
-        threads = [threading.Thread(target=body, args=(i,), daemon=True) for i in range(n)]
-        for t in threads:
-            t.start()
+        workers = self._workers(n)
+        for i in range(n):
+            workers[i].submit(body, i)
         # Bring every actor to its first point (or completion): run each until it blocks.
         # An actor that has not started is "enabled" with pending None; its first step runs
         # local code up to the first syscall.  To keep steps == syscalls we let each actor advance
@@ -223,16 +291,21 @@ class Explorer:
             ctl.aborting = True
             for i in range(n):
                 ctl.sems[i].release()
-            for t in threads:
-                t.join(2)
+            for w in workers:
+                w.wait_idle(2)
+            self._pool = None  # do not reuse threads that may be stuck
             ctl.release()
             raise
-        for t in threads:
-            t.join(5)
-            if t.is_alive():
+        for w in workers:
+            if not w.wait_idle(10):
                 raise HarnessError("actor thread did not finish")
         ctl.release()
         return ex
+
+    def _workers(self, n):
+        if getattr(self, "_pool", None) is None or len(self._pool) != n:
+            self._pool = [_Worker() for _ in range(n)]
+        return self._pool
 
     # exploration -------------------------------------------------------------------
     def explore(self):
@@ -251,13 +324,18 @@ class Explorer:
             self.capped = True
             return
         ex = self.run(prefix)
-        self.execs += 1
-        self.per_bound[ex.n_preempt] = self.per_bound.get(ex.n_preempt, 0) + 1
-        self.points_total += len(ex.trace)
-        self.max_points = max(self.max_points, len(ex.trace))
-        self._check(ex)
+        count_it = not (self.shard and depth == 0 and self.shard[0] != 0)
+        if count_it:
+            self.execs += 1
+            self.per_bound[ex.n_preempt] = self.per_bound.get(ex.n_preempt, 0) + 1
+            self.points_total += len(ex.trace)
+            self.max_points = max(self.max_points, len(ex.trace))
+            self._check(ex)
+        for a, op, rel in ex.trace:
+            self.footprint[a].add((rel, op in fsint.MUTATING))
         # preemption cost of the prefix part is fixed; walk forward accumulating
         cost = self._cost_upto(ex, len(prefix))
+        nth = 0
         for i in range(len(prefix), len(ex.choices)):
             # choices[i] == 0 here (default), so cost unchanged by taking it
             r_en = ex.running_enabled[i]
@@ -265,6 +343,20 @@ class Explorer:
                 c = cost + (1 if r_en else 0)
                 if c > self.bound:
                     continue
+                if self.conflict_filter and r_en:
+                    # pending call of the running actor vs. everything the other actors ever touch
+                    me, myop, rel = ex.trace[i]
+                    mine_w = myop in fsint.MUTATING
+                    if not any(
+                        (mine_w or qw) and _conflicts(rel, q)
+                        for b in range(self.sc.nactors) if b != me for q, qw in self.footprint[b]
+                    ):
+                        self.skipped_by_filter += 1
+                        continue
+                if self.shard and depth == 0:
+                    nth += 1
+                    if (nth - 1) % self.shard[1] != self.shard[0]:
+                        continue
                 self._explore(ex.choices[:i] + [alt], depth + 1)
 
     def _check(self, ex):
@@ -282,12 +374,31 @@ class Explorer:
         return ex, viol
 
 
-def explore_scenario(sc, bound, max_execs=None):
+def explore_scenario(sc, bound, max_execs=None, conflict_filter=False, shard=None):
     """Run one scenario to completion; returns a dict of stats + violations (with schedules)."""
     t0 = time.time()
-    exp = Explorer(sc, bound, max_execs)
+    exp = Explorer(sc, bound, max_execs, conflict_filter, shard)
     try:
-        exp.explore()
+        if conflict_filter:
+            # Footprints must be known before they are used to prune.  Pass 0: unfiltered, unsharded
+            # exploration with <= 1 preemption (every actor runs every one of its calls in both orders
+            # relative to the other actors' completed work).  Then the filtered exploration is repeated
+            # until the footprint sets stop growing, so no pruning decision used an incomplete set.
+            saved = (exp.bound, exp.shard)
+            exp.conflict_filter, exp.bound, exp.shard = False, min(1, bound), None
+            exp._explore([], 0)
+            exp.bound, exp.shard = saved
+            exp.conflict_filter = True
+            for _pass in range(5):
+                before = [len(f) for f in exp.footprint]
+                exp.reset_stats()
+                exp.explore()
+                if [len(f) for f in exp.footprint] == before:
+                    break
+            else:
+                raise HarnessError("footprints did not stabilise in scenario %s" % sc.name)
+        else:
+            exp.explore()
         # replay-before-report: every violating schedule is re-run twice; identical verdicts required
         confirmed = []
         seen = set()
@@ -320,6 +431,7 @@ def explore_scenario(sc, bound, max_execs=None):
             "capped": exp.capped,
             "wall_s": round(time.time() - t0, 3),
             "uninterposed": fsint.uninterposed()[:5],
+            "skipped_by_filter": exp.skipped_by_filter,
         }
     finally:
         exp.close()
